@@ -134,34 +134,87 @@ def loop_header(body, pos):
         if re.match(r'(for|while)\b', h): return h
     return ''
 
-def frame_steps(name, fns, recv='self'):
+# call names that make up the canonical frames (Props/TieSteps.lean); any OTHER function of the same file that a framing
+# function calls is a private helper and is inlined, so that extracting or inlining such a helper does not change the frame
+FRAME_VOCAB = {'u8', 'u16', 'u32', 'u64', 'flags', 'question', 'rr', 'is_finished', 'finished', 'domain_name', 'q_type', 'q_class',
+               'rr_type', 'rr_class', 'sub', 'rr_header', 'count', 'question_type', 'question_class', 'create_length_index',
+               'set_length_index', 'rr_edns_option', 'rr_edns_option_code', 'rr_edns_ecs', 'rr_edns_cookie', 'rr_edns_padding',
+               'rr_apl_apitem', 'rr_address_family_number', 'rr_address', 'rr_address_without_trailing_zeros',
+               'set_address_length_index', 'rr_service_parameter', 'string', 'vec', 'ipv4_addr', 'ipv6_addr', 'dns'}
+
+def _params(sig):
+    """names of the value parameters of a method signature (after `self`)"""
+    out = []
+    for part in re.split(r',(?![^<(\[]*[>)\]])', sig):
+        m = re.match(r'\s*(?:mut\s+)?(\w+)\s*:', part)
+        if m and m.group(1) != 'self': out.append(m.group(1))
+    return out
+
+def _split_args(arg):
+    out = []; d = 0; cur = ''
+    for c in arg:
+        if c in '([{<': d += 1
+        elif c in ')]}>': d -= 1
+        if c == ',' and d == 0: out.append(cur); cur = ''
+        else: cur += c
+    if cur.strip(): out.append(cur)
+    return out
+
+def frame_steps(name, fns, recv='self', depth=0, stop=None):
     """generic ordered `(what, call)` list of a framing function: every `<recv>.<m>(` call in source order, `*` when inside
-    a loop, `?` inside a conditional.  `what` is rename-proof: `@i` when the loop the call sits in runs over the value bound
-    by step i (a count read earlier), `.f` when the argument / loop collection is the field `f` of the function's value
-    parameter (public struct fields), `_` otherwise (names of locals are not recorded)"""
+    a loop (or an iterator adaptor's closure), `?` inside a conditional.  Calls of same-file functions outside FRAME_VOCAB
+    are inlined (parameters replaced by the argument text).  `what` is rename-proof: `@i` when the loop the call sits in
+    runs over the value bound by step i (a count read earlier), `.f` when the argument / loop collection is the field `f` of
+    the function's value parameter (public struct fields), `_` otherwise (names of locals are not recorded).
+    Returns raw records (bind, meth, mark, context text); `frame_resolve` turns them into the final pairs."""
     sig, body = fns[name]
-    pm = re.match(r'\s*&(?:\'\w+\s+)?mut\s+self\s*,\s*(\w+)\s*:', sig)
-    x = pm.group(1) if pm else None
     raw = []
     for m in re.finditer(r'\b(?:%s)\s*\.\s*(\w+)\s*\(' % recv, body):
         meth = m.group(1)
         mark = ctx_marker(body, m.start())
-        stmt_start = max(body.rfind(';', 0, m.start()), 0)
+        stmt_start = max(body.rfind(';', 0, m.start()), body.rfind('{', 0, m.start()), 0)
+        stmt = body[stmt_start:m.start()]
         lm = None
-        for lm in re.finditer(r'\blet\s+(?:mut\s+)?(\(?[\w, ]+\)?)\s*(?::[^=]+)?=', body[stmt_start:m.start()]): pass
+        for lm in re.finditer(r'\blet\s+(?:mut\s+)?(\(?[\w, ]+\)?)\s*(?::[^=]+)?=', body[max(body.rfind(';', 0, m.start()), 0):m.start()]): pass
         bind = re.sub(r'\s', '', lm.group(1)) if lm else None
         ae = match_brace(body, m.end() - 1, '(', ')')
         arg = body[m.end():ae - 1]
         hdr = loop_header(body, m.start()) if mark == '*' else ''
-        raw.append((bind, meth, mark, arg, hdr))
+        if not mark and re.search(r'\|[^|]*\|', stmt) and re.search(r'\b(for_each|try_for_each|map|try_fold|fold)\b', stmt):
+            mark = '*'; hdr = stmt
+        ctx = arg + ' ' + hdr
+        if meth not in FRAME_VOCAB and meth in fns and meth != name and depth < 3 and not (stop and meth in stop):
+            inner = frame_steps(meth, fns, 'self', depth + 1, stop)
+            ps = _params(fns[meth][0]); args = _split_args(arg)
+            for (b2, m2, k2, c2) in inner:
+                for pn, av in zip(ps, args):
+                    c2 = re.sub(r'\b%s\b' % re.escape(pn), ' ' + av.strip() + ' ', c2)
+                raw.append((b2, m2, k2 or mark, c2 + (' ' + hdr if mark == '*' else '')))
+            if bind and inner: raw[-1] = (bind,) + raw[-1][1:]
+            continue
+        raw.append((bind, meth, mark, ctx))
+    return raw
+
+FRAME_UNKNOWN = []
+
+def frame_resolve(name, fns, raw, extra_vocab=()):
+    known = [r for r in raw if r[1] in FRAME_VOCAB or r[1] in extra_vocab or r[1] in PRIM_DEC or r[1] in PRIM_ENC]
+    FRAME_UNKNOWN.extend((name, r[1]) for r in raw if r not in known)
+    raw = known
+    return _frame_resolve(name, fns, raw)
+
+def _frame_resolve(name, fns, raw):
+    sig = fns[name][0]
+    pm = re.match(r'\s*&(?:\'\w+\s+)?mut\s+self\s*,\s*(\w+)\s*:', sig)
+    x = pm.group(1) if pm else None
     steps = []
-    for i, (bind, meth, mark, arg, hdr) in enumerate(raw):
+    for i, (bind, meth, mark, ctx) in enumerate(raw):
         what = '_'
-        fm = re.findall(r'\b%s\s*\.\s*(\w+)' % x, arg + ' ' + hdr) if x else []
+        fm = re.findall(r'\b%s\s*\.\s*(\w+)\b(?!\s*\()' % x, ctx) if x else []
         if fm: what = '.' + fm[0]
-        elif hdr:
+        else:
             for j in range(i):
-                if raw[j][0] and re.search(r'\b%s\b' % re.escape(raw[j][0]), hdr): what = '@%d' % j; break
+                if raw[j][0] and re.search(r'\b%s\b' % re.escape(raw[j][0]), ctx): what = '@%d' % j; break
         steps.append((what, meth + mark))
     return steps
 
@@ -326,18 +379,17 @@ def main(repo, outdir):
             res['unreadable'].append(('enc', v, str(e)))
     # ---------- framing functions (message, question, record header / window)
     frames = []
-    def grab(label, path, fname, recv='self'):
+    def grab(label, path, fname, recv='self', stop=None):
         p = src / path
         if not p.exists(): res['unreadable'].append(('frame', label, 'file %s not found' % path)); return
         fs = functions(strip_comments(p.read_text()))
         if fname not in fs: res['unreadable'].append(('frame', label, 'function %s not found' % fname)); return
-        try: frames.append((label, frame_steps(fname, fs, recv)))
+        try: frames.append((label, frame_resolve(fname, fs, frame_steps(fname, fs, recv, stop=stop), extra_vocab=stop or ())))
         except ValueError as e: res['unreadable'].append(('frame', label, str(e)))
     grab('dec.dns', 'decode/dns.rs', 'dns')
     grab('dec.question', 'decode/question.rs', 'question')
     grab('dec.rr_header', 'decode/rr/enums.rs', 'rr_header')
-    grab('dec.rr_data', 'decode/rr/enums.rs', 'rr_data')
-    grab('dec.rr', 'decode/rr/enums.rs', 'rr', recv='self|r_data')
+    grab('dec.rr', 'decode/rr/enums.rs', 'rr', recv='self|r_data', stop={d[2].split('/')[0] for d in res['decDispatch']})
     frames[:] = [(l, [x for x in st if not (l == 'dec.rr' and any(x[1] == d[2].split('/')[0] for d in res['decDispatch']))]) for l, st in frames]   # the dispatch arms are `decDispatch`
     grab('enc.dns', 'encode/dns.rs', 'dns')
     grab('enc.count', 'encode/dns.rs', 'count')
@@ -368,6 +420,9 @@ def main(repo, outdir):
         for pat, arm in match_arms(fs['rr_service_parameter'][1], r'parameter'):
             k = re.match(r'ServiceParameter::(\w+)', pat)
             svc['enc'].append((k.group(1) if k else pat, arm_calls(arm)))
+        strip = lambda c: c.rstrip('*?')
+        bad = [c for _, _, cs in svc['dec'] for c in cs if strip(c) not in PRIM_DEC] + [c for _, cs in svc['enc'] for c in cs if strip(c) not in PRIM_ENC]
+        if bad: raise ValueError('value reader/writer calls %s, which is not a primitive' % sorted(set(bad))[:3])
     except (ValueError, KeyError, OSError) as e:
         res['unreadable'].append(('svcparam', 'tables', str(e)[:80]))
         svc = {'numbers': [], 'dec': [], 'enc': []}
@@ -413,6 +468,8 @@ def main(repo, outdir):
         f.write('/-- EDNS option dispatch: decoder (code, variant, reader) and encoder (variant, writer) -/\n')
         f.write('def optDec : List (String × String × String) := [' + ', '.join('(%s, %s, %s)' % tuple(map(lean_str, x)) for x in opt['dec']) + ']\n')
         f.write('def optEnc : List (String × String) := ' + lean_pairs(opt['enc']) + '\n')
+        f.write('/-- calls inside framing functions that are outside the frame vocabulary and therefore not part of `frameSteps` -/\n')
+        f.write('def frameOtherCalls : List (String × String) := ' + lean_pairs(sorted(set(FRAME_UNKNOWN))) + '\n')
         f.write('/-- functions the extractor could not read as straight-line code: (side, type, reason) -/\n')
         f.write('def stepsUnreadable : List (String × String × String) := [\n' + ',\n'.join('  (%s, %s, %s)' % tuple(map(lean_str, x)) for x in res['unreadable']) + ']\n')
         f.write('end Gen\n')
